@@ -253,6 +253,23 @@ impl SwiftField for Field54ReceiverCorrespondent {
         })
     }
 
+    fn parse_with_variant(
+        value: &str,
+        variant: Option<&str>,
+        _field_tag: Option<&str>,
+    ) -> crate::Result<Self>
+    where
+        Self: Sized,
+    {
+        // The option letter of the tag decides the variant
+        match variant {
+            Some("A") => Ok(Field54ReceiverCorrespondent::A(Field54A::parse(value)?)),
+            Some("B") => Ok(Field54ReceiverCorrespondent::B(Field54B::parse(value)?)),
+            Some("D") => Ok(Field54ReceiverCorrespondent::D(Field54D::parse(value)?)),
+            _ => Self::parse(value),
+        }
+    }
+
     fn to_swift_string(&self) -> String {
         match self {
             Field54ReceiverCorrespondent::A(field) => field.to_swift_string(),
